@@ -245,8 +245,13 @@ def check_request(W, rec, rng):
     st = Short(body, k)
     env = {"REQUEST_METHOD": "POST", "wsgi.input": st, "CONTENT_TYPE": ct, "wsgi.url_scheme": "http", "SERVER_NAME": "h", "SERVER_PORT": "80",
            "PATH_INFO": "/", "SCRIPT_NAME": "", "QUERY_STRING": ""}
+    lying = with_cl and terminated and len(body) > 8 and rng.random() < 0.35
+    declared_len = len(body)
+    if lying:
+        # the declared length does not describe what the server-terminated stream delivers (decompression, proxy rewrite)
+        declared_len = rng.choice([1, len(body) // 2, 5])
     if with_cl:
-        env["CONTENT_LENGTH"] = str(len(body))
+        env["CONTENT_LENGTH"] = str(declared_len)
     if terminated:
         env["wsgi.input_terminated"] = True
 
@@ -285,6 +290,17 @@ def check_request(W, rec, rng):
     if out[0] == "413":
         rec.observe("rejected_413")
     readable = with_cl or terminated  # otherwise the safe fallback gives an empty stream
+    if lying:
+        case["declared_length"] = declared_len
+        rec.observe("lying_content_length_cases")
+        if mcl is not None and declared_len <= mcl:
+            if st.total > mcl:
+                rec.violation("C10/E2-terminated-stream-read-past-max_content_length", f"{st.total} bytes read, max_content_length {mcl}, declared {declared_len}; {case}", case, monitor="byte-accounting")
+                return
+            if len(body) > mcl and out[0] == "ok" and not (kind == "urlencoded" and memv is None):
+                rec.violation("C10/E1-streamed-length-over-max_content_length-accepted", f"{len(body)} bytes streamed with declared length {declared_len} accepted under max_content_length {mcl}; {case}", case, monitor="E1")
+                return
+        return
     if with_cl and mcl is not None and len(body) > mcl:
         rec.observe("over_limit_cases")
         if out[0] != "413":
